@@ -29,6 +29,16 @@ func (c *Ctx) Guard(key string) bool {
 		return false
 	}
 	c.Begin(key)
+	if c.partialPath != "" && time.Since(c.lastFlush) > 2*time.Second {
+		// flush what has been found so far: if this attempt is killed by the watchdog the
+		// supervisor still learns about the violations recorded up to here
+		c.lastFlush = time.Now()
+		r := c.Res
+		r.Exhaustive = false
+		if b, err := json.Marshal(r); err == nil {
+			os.WriteFile(c.partialPath, b, 0o644)
+		}
+	}
 	curKey.Store(c.sub + "\t" + key)
 	curStart.Store(time.Now().UnixNano())
 	return true
@@ -43,7 +53,7 @@ func WorkerMain(id, tier string, shard, nshards int, seed int64, out string) int
 		fmt.Fprintf(os.Stderr, "unknown check %s\n", id)
 		return 2
 	}
-	debug.SetMaxStack(512 << 20)
+	debug.SetMaxStack(64 << 20)
 	debug.SetGCPercent(200)
 	skipKeys = map[string]bool{}
 	if p := os.Getenv("VCHECK_SKIP"); p != "" {
@@ -67,6 +77,7 @@ func WorkerMain(id, tier string, shard, nshards int, seed int64, out string) int
 		HangLimit = ch.HangLimit
 	}
 	c := NewCtx(id, tier, shard, nshards, seed, budget)
+	c.partialPath, c.lastFlush = out+".partial", time.Now()
 	write := func() {
 		r := c.Finish()
 		b, _ := json.Marshal(r)
